@@ -4,9 +4,11 @@ Three parts (DESIGN 4.C04):
 
 * Lean (`DS.Props.C04`, `DS.Lemmas.Dec`, `DS.Lemmas.Formats`): exact-decimal text layer
   (`fmtF`, `fmtG`, `parseDec`, tokenisation, fixed columns) with unbounded theorems, and per-format
-  record models `write_f` / `parse_f` / `quant_f` / `repr_f`; `roundtrip_f`, `idem_f` are proved at
-  the string level for xyz, rawxyz, discus, pdffit, pdb; for xcfg and cif the full statements are
-  kept as `def ..._statement : Prop` and record-level fragments are proved.
+  record models `write_f` / `parse_f` / `quant_f` / `repr_f`; `roundtrip_f` is proved at the string
+  level for all seven formats (xcfg and cif: `DS.Lemmas.FormatsX` / `FormatsC`), `idem_f` for xyz,
+  rawxyz, discus, pdffit, pdb, and for cif under `stableCif`; for xcfg the second trip is proved under
+  `stableXcfg` (`idem_xcfg_partial`: two numerical clauses are hypotheses; the full form is kept as
+  `def idem_xcfg_statement : Prop`), and `xcfg_same_columns` (no auxiliary growth) without them.
 * Correspondence (all seven formats): seeded random structures drawn from the formats' ranges;
   the text of the real writer is compared token by token with the text of the Lean model (values
   shipped as the exact fractions of the doubles), the model's reading of the *real* text is compared
@@ -1814,6 +1816,7 @@ def run(ck):
         "double <-> decimal: Python's % formatting of a double is the correctly rounded (half-even) decimal of its exact value, and float() of a printed decimal is the nearest double (CPython dtoa); the Lean model computes on the exact rationals (and on exactly rounded doubles, `fl`, where the XCFG writer computes before printing)",
         "the documents shipped to the model are read off the structure through the public API (a.xyz_cartn, a.Bisoequiv, a.U, lattice.abcABG(), lattice.base ...): lattice/ADP conversions inside readers and writers (Cartesian <-> fractional, B <-> U, isotropic tensors in oblique cells, placeInLattice) are not part of the text model (C01/C09/C14); the AtomicMass table of p_xcfg is read from the module",
         "PyCifRW (tokeniser/grammar of the CIF reader) is exercised by the oracle only; the Lean CIF reader recognises the layout P_cif.toLines emits and applies diffpy's glue",
+        "second-trip theorems of cif and xcfg go through `reloadCif` / `reloadXcfg` (DS.Lemmas.FormatsI: the document of the re-read structure, ADP semantics of a lattice with orthogonal axes); these two definitions were compared with the real reader off-line (300 random structures each, no mismatch) and are not part of the continuous correspondence, which ships the documents of the real re-read structures for trips 2 and 3",
         "element symbols and free text are restricted to what range_f states (printable ASCII elements, one-line titles); Python's Unicode case mapping / digit parsing outside ASCII is not modelled",
         "degenerate cells (Lattice raising) are outside the generator; Cell6.ok states the non-degeneracy condition but Lattice's acceptance of exactly these cells is C01's subject",
         "PDB SIGATM/SIGUIJ records and standard deviations (sigxyz, sigo, sigU other than the zero defaults of pdffit) are not generated; PDB titles longer than 60 characters are compared with the model but not covered by roundtrip_pdb",
